@@ -137,6 +137,16 @@ CLAIMED = {
          "continuousAt_sound / sumEq_sound; contribution_shape lifts the kernel-decided certificates to all wages. The person is an "
          "employee without statutory pension (ges_rente_m supplied as 0), rounded parameter-only nodes (minijob_grenze, midijob_faktor_f) "
          "enter as the constants the real system computes; floats are exact rationals in the model."),
+ "C16": ("5/C16", "verified sign analysis (Core/Sign.lean: abstract interpretation of the rule language with branch refinement, sound by "
+         "absExpr_sound / absFun_sound / signTable_sound / absLeArg_sound / leFacts_sound) run over the dependency graph of the default "
+         "targets rebuilt from the rule sources at every sampled date: one obligation per default target it classifies non-negative "
+         "and per cap it certifies (benefit after priority checks <= entitlement before); corner-population search on the real system "
+         "for finiteness, sign and caps",
+         "Proof: Props/C16.lean (for all inputs satisfying the documented ranges: non-negative amounts, Boolean flags, parameter trees "
+         "without negative leaves); PARTIAL: the analysis classifies 7-8 of the 18 default targets (transfers with clamps); income tax, "
+         "soli (piecewise schedules: covered by C18's eval_nonneg_of_mono), the four contributions (covered for all wages by C19) and "
+         "pensions are listed as not classified in the evidence and rest on those properties and on the search; finiteness (no NaN/inf) "
+         "is explored only; evaluated by the Lean interpreter on regenerated graphs, not by the kernel."),
 }
 
 NOT_YET = "check not built yet in this round (design in DESIGN.md §5); the property itself is in scope of the technique"
